@@ -42,7 +42,8 @@ def plan_snapshot(plan):
     nodes = []
     for n in g.nodes():
         nodes.append((id(n), type(n).__name__, getattr(n, "scope", "<none>"), id(getattr(n, "fn", None)), id(getattr(n, "value", None)),
-                      id(getattr(n, "stack_frame", None)), tuple(sorted((str(k), id(v)) for k, v in g.nodes[n].items()))))
+                      id(getattr(n, "stack_frame", None)), tuple(sorted((str(k), id(v)) for k, v in g.nodes[n].items())),
+                      other_state(n, ("scope", "fn", "value", "stack_frame"))))
     edges = []
     for u, v, k, d in g.edges(keys=True, data=True):
         edges.append((id(u), id(v), edge_key(k), id(k), tuple(sorted((str(a), id(b)) for a, b in d.items()))))
